@@ -9,7 +9,7 @@ import (
 
 func init() {
 	checkers["C16"] = checker{
-		rule: "at check time the OpenSSL CLI signs random contents with fresh RSA keys/certificates under every combination of {smime, cms} x {detached, -nodetach} x {S/MIME capabilities, -nosmimecap} x {certificates, -nocerts} plus cms -cades (additional signed attribute, also with a one-letter issuer) and cms -receipt_request_to (several signed attributes the library does not know), with self-signed and CA-issued signing certificates; together with the sbsign / sbvarsign artefacts of the repository; each blob is parsed and verified by the library in the sandboxed worker against the signer's certificate (must succeed: completeness on the supported subset, extracted check_accepts) and against four other certificates (must not), the parsed values are compared with the model's parse, and Attributes.Marshal() of the parsed values is compared with SET||attributes-as-in-blob (extracted check_reencode); non-trivial = the model parses the blob; distinct by (blob, certificate) hash",
+		rule: "at check time the OpenSSL CLI signs random contents with fresh RSA keys/certificates under every combination of {smime, cms} x {detached, -nodetach} x {S/MIME capabilities, -nosmimecap} x {certificates, -nocerts} plus cms -cades (additional signed attribute, also with a one-letter issuer) cms -receipt_request_to (several signed attributes the library does not know) and cms -econtent_type (content types other than data, SignedData version 3), with self-signed and CA-issued signing certificates; together with the sbsign / sbvarsign artefacts of the repository; each blob is parsed and verified by the library in the sandboxed worker against the signer's certificate (must succeed: completeness on the supported subset, extracted check_accepts) and against four other certificates (must not), the parsed values are compared with the model's parse, and Attributes.Marshal() of the parsed values is compared with SET||attributes-as-in-blob (extracted check_reencode); non-trivial = the model parses the blob; distinct by (blob, certificate) hash",
 		run:  runC16,
 	}
 }
@@ -39,7 +39,10 @@ func runC16(c *Ctx) {
 	confs = append(confs, conf{"cms", []string{"-cades"}}, conf{"cms", []string{"-cades", "-nodetach"}},
 		// several signed attributes the library does not know, in the order their DER encodings sort
 		conf{"cms", []string{"-receipt_request_to", "a@b.c"}}, conf{"cms", []string{"-receipt_request_to", "a@b.c", "-nodetach"}},
-		conf{"cms", []string{"-cades", "-receipt_request_to", "someone@example.org", "-nosmimecap"}})
+		conf{"cms", []string{"-cades", "-receipt_request_to", "someone@example.org", "-nosmimecap"}},
+		// an encapsulated content type other than data: CMS SignedData version 3
+		conf{"cms", []string{"-nodetach", "-econtent_type", "1.2.840.113549.1.9.16.1.4"}},
+		conf{"cms", []string{"-nodetach", "-econtent_type", "1.3.6.1.4.1.311.2.1.4", "-nosmimecap"}})
 	var seeds []p7Seed
 	if opensslPath() == "" {
 		c.Rep.Extra["openssl_note"] = "openssl CLI not found: only the repository fixtures are checked"
